@@ -89,12 +89,23 @@ theorem treeClone_textIds (ids : List Nat) (top : Node) (anc : List Shell) (c : 
 
 /-! ## wrapping and climbing keep the text -/
 
-theorem wrap_textIds (s : Shell) (n : Node) : (s.wrap n).textIds = n.textIds := by
-  simp [Shell.wrap, Node.textIds, textIdsL]
+/-- no shell is a void-named element (in the HTML namespace the parser gives void elements no children,
+so an ancestor of a text node can only be void-named when it is an SVG / MathML element) -/
+def NoVoid (anc : List Shell) : Prop := ∀ s ∈ anc, domVoid s.tag = false
 
-theorem climb_textIds (A : CAtoms) : ∀ (anc : List Shell) (r : Node), (climb A r anc).textIds = r.textIds
-  | [], _ => rfl
-  | s :: rest, r => by
+theorem wrap_textIds (s : Shell) (n : Node) (h : domVoid s.tag = false) : (s.wrap n).textIds = n.textIds := by
+  simp [Shell.wrap, h, Node.textIds, textIdsL]
+
+/-- whatever the shell, wrapping never adds text: it keeps all of it or (void-named shell) none -/
+theorem wrap_textIds_sublist (s : Shell) (n : Node) : (s.wrap n).textIds.Sublist n.textIds := by
+  unfold Shell.wrap
+  split
+  · simp [Node.textIds, textIdsL]
+  · simp [Node.textIds, textIdsL]
+
+theorem climb_textIds (A : CAtoms) : ∀ (anc : List Shell) (r : Node), NoVoid anc → (climb A r anc).textIds = r.textIds
+  | [], _, _ => rfl
+  | s :: rest, r, hv => by
     unfold climb
     split
     · rfl
@@ -102,7 +113,19 @@ theorem climb_textIds (A : CAtoms) : ∀ (anc : List Shell) (r : Node), (climb A
       · rfl
       · split
         · rfl
-        · rw [climb_textIds A rest, wrap_textIds]
+        · rw [climb_textIds A rest _ (fun x hx => hv x (by simp [hx])), wrap_textIds _ _ (hv s (by simp))]
+
+theorem climb_textIds_sublist (A : CAtoms) : ∀ (anc : List Shell) (r : Node), (climb A r anc).textIds.Sublist r.textIds
+  | [], _ => List.Sublist.refl _
+  | s :: rest, r => by
+    unfold climb
+    split
+    · exact List.Sublist.refl _
+    · split
+      · exact List.Sublist.refl _
+      · split
+        · exact List.Sublist.refl _
+        · exact (climb_textIds_sublist A rest _).trans (wrap_textIds_sublist s r)
 
 mutual
 theorem absNode_textIds' (abs absSet : String → String) : (m : Node) → (absNode abs absSet m).textIds = m.textIds
@@ -192,8 +215,9 @@ theorem textClone_eq (A : CAtoms) (abs absSet : String → String) (ids : List N
       | cons s rest => rfl
 
 theorem textCloneStart_textIds (ids : List Nat) (top : Node) (anc : List Shell) (r : Node)
+    (hv : ∀ anc0 c, treeClone ids top = some (anc0, c) → NoVoid anc0)
     (h : textCloneStart ids top = some (anc, r)) :
-    r.textIds = top.textIds.filter (fun i => ids.contains i) := by
+    r.textIds = top.textIds.filter (fun i => ids.contains i) ∧ NoVoid anc := by
   unfold textCloneStart at h
   cases ht : treeClone ids top with
   | none => rw [ht] at h; cases h
@@ -202,28 +226,64 @@ theorem textCloneStart_textIds (ids : List Nat) (top : Node) (anc : List Shell) 
     rw [ht] at h
     have hc := treeClone_textIds ids top anc0 c ht
     simp only at h
+    have hv0 := hv anc0 c ht
     by_cases he : c.isElem = true
     · simp only [he, if_true, Option.some.injEq, Prod.mk.injEq] at h
-      rw [← h.2]; exact hc
+      rw [← h.2, ← h.1]; exact ⟨hc, hv0⟩
     · simp only [he] at h
       cases anc0 with
       | nil => cases h
       | cons s rest =>
         simp only [Bool.false_eq_true, if_false, Option.some.injEq, Prod.mk.injEq] at h
-        rw [← h.2, wrap_textIds]; exact hc
+        rw [← h.2, ← h.1, wrap_textIds _ _ (hv0 s (by simp))]
+        exact ⟨hc, fun x hx => hv0 x (by simp [hx])⟩
 
 /-- **Text rendering is an excerpt** (root other than `body`): the text nodes of the processed
 clone that `Text.GenerateOutput` serialises are exactly the window's text nodes, in document
 order, whatever the display atoms and URL resolvers answer. -/
 theorem textClone_textIds (A : CAtoms) (abs absSet : String → String) (ids : List Nat) (top : Node)
     (anc : List Shell) (r0 out : Node)
+    (hv : ∀ anc0 c, treeClone ids top = some (anc0, c) → NoVoid anc0)
     (hs : textCloneStart ids top = some (anc, r0)) (hb : r0.tag ≠ "body")
     (h : textClone A abs absSet ids top = some out) :
     out.textIds = top.textIds.filter (fun i => ids.contains i) := by
   rw [textClone_eq, hs] at h
   simp only [Option.map_some, Option.some.injEq] at h
-  rw [← h, processClone_textIds, climb_textIds, bodyToDiv_of_ne r0 hb]
-  exact textCloneStart_textIds ids top anc r0 hs
+  have hst := textCloneStart_textIds ids top anc r0 hv hs
+  rw [← h, processClone_textIds, climb_textIds A anc _ hst.2, bodyToDiv_of_ne r0 hb]
+  exact hst.1
+
+/-- without any assumption on the ancestors: the processed clone never holds a text node that is not
+in the window, nor one twice or out of order (void-named ancestors can only lose text) -/
+theorem textClone_textIds_sublist (A : CAtoms) (abs absSet : String → String) (ids : List Nat) (top : Node)
+    (anc : List Shell) (r0 out : Node)
+    (hs : textCloneStart ids top = some (anc, r0)) (hb : r0.tag ≠ "body")
+    (h : textClone A abs absSet ids top = some out) :
+    out.textIds.Sublist (top.textIds.filter (fun i => ids.contains i)) := by
+  rw [textClone_eq, hs] at h
+  simp only [Option.map_some, Option.some.injEq] at h
+  rw [← h, processClone_textIds, bodyToDiv_of_ne r0 hb]
+  refine (climb_textIds_sublist A anc r0).trans ?_
+  -- the start: the clone itself, or the clone wrapped once
+  unfold textCloneStart at hs
+  cases ht : treeClone ids top with
+  | none => rw [ht] at hs; cases hs
+  | some p =>
+    obtain ⟨anc0, c⟩ := p
+    rw [ht] at hs
+    have hc := treeClone_textIds ids top anc0 c ht
+    simp only at hs
+    by_cases he : c.isElem = true
+    · simp only [he, if_true, Option.some.injEq, Prod.mk.injEq] at hs
+      rw [← hs.2, hc]
+      exact List.Sublist.refl _
+    · simp only [he] at hs
+      cases anc0 with
+      | nil => cases hs
+      | cons s rest =>
+        simp only [Bool.false_eq_true, if_false, Option.some.injEq, Prod.mk.injEq] at hs
+        rw [← hs.2, ← hc]
+        exact wrap_textIds_sublist s c
 
 /-- in the `body` case the children are re-parsed: the character data is kept (adjacent text nodes
 merge) up to white space trimmed at the two ends -/
